@@ -97,7 +97,7 @@ def PC.label : PC → String
   | .addn => "rfr:addn"        -- self.addition_type, r = resolve_forward_type(self.addition_type)
   | .clr1 => "rfr:clr1"        -- ref.__forward_evaluated__ = False
   | .clr2 => "rfr:clr2"        -- ref.__forward_value__ = None
-  | .popd => "rfr:popd"        -- self.forward_refs.pop(name, None)          [finally]
+  | .popd => "rfr:popd"        -- self.forward_refs.pop(name, None)          [finally, `if rewritten:`]
   | .unlock => "rfr:unlock"    -- leaving the `with` block
   | .frfPos => "frf:pos?"      -- if self.position_type:
   | .frfRet => "frf:ret?"      -- if self.return_type:
@@ -177,7 +177,9 @@ def popAdvance (t : Th) : Th :=
 
 /-- `finally:` (fixed code) / plain return (pre-fix) -/
 def enterFinally (W : World) (lg : Bool) (t : Th) : Th :=
-  if lg then leaveResolve W t else popAdvance { t with popIt := t.rn }
+  if lg then leaveResolve W t
+  -- `if rewritten:` — an aborted resolution (an exception is travelling) pops nothing: everything stays listed
+  else popAdvance { t with popIt := if t.exc.isSome then [] else t.rn }
 
 def clearAdvance (W : World) (lg : Bool) (t : Th) : Th :=
   match t.clrIt with
